@@ -72,6 +72,14 @@ CHECKS["C04"] = dict(
     design="5/C04",
 )
 
+CHECKS["C09"] = dict(
+    technique="iterated-application property test: generated and corpus inputs x options, the orbit x, f(x), ..., f^6(x) checked for a fixed point within 5 steps, stability of the fixed point and absence of cycles",
+    text="For families, compositions, grammar programs, the zoo, the repository's examples and stdlib modules the sequence of repeated format_code "
+         "applications is computed; it must reach a byte-identical fixed point within five applications, stay there, and never revisit an earlier text.",
+    note="Caches cleared between applications; crashes/hangs are C04's; the histogram of applications needed (k) is reported.",
+    design="5/C09",
+)
+
 NOT_YET = {}
 
 
